@@ -26,13 +26,14 @@ REQUIRED = {"interactions_resolved": 5000, "dihedrals_resolved": 2000, "wildcard
             "nonbond_pairs_checked": 3000, "explicit_overrides": 300, "c6c12_conversions": 500, "masks_seen": 14,
             "opls_cases": 30, "multi_line_molecules": 100, "other_moleculetype_instances": 200,
             "macros_with_function_type": 100, "macros_in_pairs": 100, "macros_defined_twice": 30,
-            "generated_pairs_checked_for_symmetry": 500}
+            "generated_pairs_checked_for_symmetry": 500,
+            "conditional_alternatives_checked": 500}
 TYPES = ["ta", "tb", "tc", "td", "te"]
 
 
 def plan(tier, seed):
     n = 4000 if tier == "quick" else 40000
-    return [["top", i] for i in range(n)]
+    return [["top", i] for i in range(n)] + [["cond", i] for i in range(n // 10)]
 
 
 def setup():
@@ -261,8 +262,96 @@ def resolve(sec, table, types):
     return best
 
 
+def run_cond(cid, rng, workdir, res):
+    """bonded types given in both branches of #ifdef/#ifndef ... #else ... #endif: the program keeps every alternative
+    together with the condition it was written under; an interaction without parameters carries each alternative under
+    exactly that condition"""
+    from polyply.src.topology import Topology
+    tag = rng.choice(["FLEX", "STIFF", "X1"])
+    cond = rng.choice(["ifdef", "ifndef"])
+    inverse = {"ifdef": "ifndef", "ifndef": "ifdef"}[cond]
+    n = rng.randint(2, 5)
+    at = [rng.choice(TYPES[:3]) for _ in range(n)]
+    pairs = sorted({tuple(sorted((at[i], at[i + 1]))) for i in range(n - 1)})
+    with_else = rng.random() < 0.8
+    first, second, plain, orient = {}, {}, {}, {}
+    L = ["[ defaults ]", "1 2 no 1.0 1.0", "[ atomtypes ]"] + ["%s 12.0 0.0 A 0.3 0.5" % t for t in TYPES[:3]]
+    if rng.random() < 0.5:
+        L.insert(0, "#define %s" % tag)
+    L += ["[ bondtypes ]"]
+    for pr in pairs:
+        if rng.random() < 0.25:
+            plain[pr] = ["1", fmt(rng.uniform(0.1, 0.2)), str(rng.randint(100, 999))]
+    for pr, v in plain.items():
+        L.append("%s %s %s" % (pr[0], pr[1], " ".join(v)))
+    L.append("#%s %s" % (cond, tag))
+    for pr in pairs:
+        if pr not in plain:
+            first[pr] = ["1", fmt(rng.uniform(0.2, 0.3)), str(rng.randint(1000, 1999))]
+            orient[pr] = pr if rng.random() < 0.5 else pr[::-1]
+            L.append("%s %s %s" % (orient[pr][0], orient[pr][1], " ".join(first[pr])))
+    if with_else:
+        L.append("#else")
+        for pr in pairs:
+            if pr not in plain:
+                second[pr] = ["1", fmt(rng.uniform(0.3, 0.4)), str(rng.randint(2000, 2999))]
+                # written in the same direction as in the first branch (entries of the two branches that name the
+                # types in opposite directions are kept under different keys and only one of them is found: observation)
+                L.append("%s %s %s" % (orient[pr][0], orient[pr][1], " ".join(second[pr])))
+    L.append("#endif")
+    L += ["[ moleculetype ]", "M 1", "[ atoms ]"] + ["%d %s 1 R A%d %d 0.0" % (i + 1, at[i], i, i + 1) for i in range(n)]
+    L += ["[ bonds ]"] + ["%d %d 1" % (i + 1, i + 2) for i in range(n - 1)]
+    L += ["[ system ]", "x", "[ molecules ]", "M %d" % rng.randint(1, 2)]
+    text = "\n".join(L) + "\n"
+    path = os.path.join(workdir, "c9c.top")
+    with open(path, "w") as fh:
+        fh.write(text)
+    res["sig"] = sig_of(text)
+    res["sample"] = {"topology": L[:40]}
+    res["nontrivial"] = True
+    w = {"top": text}
+    bump(res, "conditional_type_cases")
+    try:
+        top = Topology.from_gmx_topfile(name="x", path=path)
+        top.preprocess()
+    except Exception as err:      # noqa
+        if type(err).__name__ == "CaseTimeout":
+            raise
+        violation(res, "conditional-types-rejected:%s" % type(err).__name__, "%s: %s" % (type(err).__name__, str(err)[:160]), w)
+        return res
+
+    def cond_of(meta):
+        if not meta:
+            return None
+        if "condition" in meta:
+            return (meta["tag"], meta["condition"])
+        for k in ("ifdef", "ifndef"):
+            if k in meta:
+                return (meta[k], k)
+        return None
+    for mi, mm in enumerate(top.molecules):
+        got = {}
+        for inter in mm.molecule.interactions.get("bonds", []):
+            got.setdefault(tuple(inter.atoms), []).append((list(inter.parameters), cond_of(inter.meta)))
+        for i in range(n - 1):
+            pr = tuple(sorted((at[i], at[i + 1])))
+            if pr in plain:
+                want = [(plain[pr], None)]
+            else:
+                want = [(first[pr], (tag, cond))] + ([(second[pr], (tag, inverse))] if with_else else [])
+            have = got.get((i, i + 1), [])
+            bump(res, "conditional_alternatives_checked", len(want))
+            if sorted(map(repr, have)) != sorted(map(repr, want)):
+                violation(res, "conditional-type-under-wrong-condition", "bond %d-%d (%s) of instance %d carries %s; the type "
+                          "table gives %s" % (i + 1, i + 2, pr, mi, have, want), w)
+                return res
+    return res
+
+
 def run_case(cid, rng, workdir):
     res = new_result()
+    if cid[0] == "cond":
+        return run_cond(cid, rng, workdir, res)
     case = gen(rng)
     path = os.path.join(workdir, "c9.top")
     with open(path, "w") as fh:
